@@ -4,6 +4,8 @@ package issuer
 
 import (
 	"fmt"
+
+	"github.com/iden3/go-iden3-crypto/poseidon"
 	"math/big"
 	"math/rand"
 	"strings"
@@ -224,4 +226,104 @@ func DIDFaults(sc *Scenario) []Mut {
 		{"resolver-doc-no-methods", "reject", setAns(DIDAnswer{VMs: []VMJ{}})},
 		{"resolver-doc-keys-only", "reject", setAns(DIDAnswer{VMs: []VMJ{{}, {}}})},
 	}
+}
+
+// NearMiss is one value close to x in some representation (all kept inside [0, q)).
+type NearMiss struct {
+	Name string
+	Z    *big.Int
+}
+
+// NearMisses of a hash value: a comparison weakened to a prefix, a display form, the low bits
+// or any other truncation lets at least one of them through.
+func NearMisses(x *big.Int) []NearMiss {
+	in := func(z *big.Int) bool { return z.Sign() >= 0 && z.Cmp(Q) < 0 && z.Cmp(x) != 0 }
+	add := func(d *big.Int) *big.Int {
+		if z := new(big.Int).Add(x, d); in(z) {
+			return z
+		}
+		return new(big.Int).Sub(x, d)
+	}
+	pow := func(b, e int64) *big.Int { return new(big.Int).Exp(big.NewInt(b), big.NewInt(e), nil) }
+	var out []NearMiss
+	put := func(n string, z *big.Int) {
+		if in(z) {
+			out = append(out, NearMiss{n, z})
+		}
+	}
+	put("plus-1", add(big.NewInt(1)))
+	put("minus-1", add(big.NewInt(-1)))
+	put("plus-2^64", add(pow(2, 64)))
+	put("minus-10^40", add(new(big.Int).Neg(pow(10, 40))))
+	// last decimal digit changed
+	d := new(big.Int).Mod(x, big.NewInt(10)).Int64()
+	put("last-decimal-digit", new(big.Int).Add(new(big.Int).Sub(x, big.NewInt(d)), big.NewInt((d+5)%10)))
+	// lowest / highest byte of the 32-byte value changed
+	put("low-byte", new(big.Int).Xor(x, big.NewInt(0x80)))
+	for bit := 248; bit >= 200; bit-- {
+		if z := new(big.Int).Xor(x, new(big.Int).Lsh(big.NewInt(1), uint(bit))); in(z) {
+			put("high-byte", z)
+			break
+		}
+	}
+	return out
+}
+
+func hash3(a, b, c *big.Int) *big.Int {
+	h, err := poseidon.Hash([]*big.Int{a, b, c})
+	if err != nil {
+		panic(err)
+	}
+	return h
+}
+
+// NearMissFaults: every hash of issuerData.state that the verifier compares is replaced by a
+// near miss and everything DOWNSTREAM is recomputed consistently (state := Poseidon of the new
+// roots, the resolver reports the new state as published), so that only the targeted
+// comparison can reject: root-from-proof vs claimsTreeRoot, and state value vs Poseidon[roots].
+func NearMissFaults(sc *Scenario) []Mut {
+	var ms []Mut
+	publish := func(p *ProofJ, e *Env, st *big.Int) {
+		if p.IssuerData.ID != nil {
+			e.DID = append(e.DID, DIDAnswer{DID: *p.IssuerData.ID, State: HexOf(st), Published: BP(true)})
+		}
+	}
+	for _, nm := range NearMisses(sc.Snap.CTR) {
+		nm := nm
+		ms = append(ms, Mut{"near-miss-claims-root-" + nm.Name, "reject", func(p *ProofJ, e *Env) {
+			st := hash3(nm.Z, sc.Snap.RTR, sc.Snap.ROR)
+			p.IssuerData.State = StateJOf(Snapshot{State: st, CTR: nm.Z, RTR: sc.Snap.RTR, ROR: sc.Snap.ROR}, false)
+			publish(p, e, st)
+		}})
+	}
+	for _, nm := range NearMisses(sc.Snap.State) {
+		nm := nm
+		ms = append(ms, Mut{"near-miss-state-value-" + nm.Name, "reject", func(p *ProofJ, e *Env) {
+			p.IssuerData.State.Value = S(HexOf(nm.Z))
+			publish(p, e, nm.Z)
+		}})
+	}
+	return ms
+}
+
+// NearMissStatusFaults (C07): the same for the status answer: its state, and its revocation
+// root with the answer's state recomputed (only the proof-root comparison can reject).
+func NearMissStatusFaults(sc *Scenario) []Mut {
+	var ms []Mut
+	for _, nm := range NearMisses(sc.Snap.State) {
+		nm := nm
+		ms = append(ms, Mut{"near-miss-status-state-" + nm.Name, "reject", func(p *ProofJ, e *Env) {
+			e.Reg[0].Answer.Issuer.State = S(HexOf(nm.Z))
+		}})
+	}
+	for _, nm := range NearMisses(sc.Snap.RTR) {
+		nm := nm
+		ms = append(ms, Mut{"near-miss-status-revocation-root-" + nm.Name, "reject", func(p *ProofJ, e *Env) {
+			a := e.Reg[0].Answer
+			a.Issuer.RevocationTreeRoot = S(HexOf(nm.Z))
+			a.Issuer.ClaimsTreeRoot, a.Issuer.RootOfRoots = S(HexOf(sc.Snap.CTR)), S(HexOf(sc.Snap.ROR))
+			a.Issuer.State = S(HexOf(hash3(sc.Snap.CTR, nm.Z, sc.Snap.ROR)))
+		}})
+	}
+	return ms
 }
